@@ -60,7 +60,7 @@ def models(tier):
                    workers=2, trace_consts=TRACE_CONSTS, replays=_replays([4, 1] if tier == "quick" else [4, 0, 1, 2]),
                    prelude=lambda segs: _remap_values(segs, 4)))        # a value and a proper prefix of it; equal keys spelled differently
     ms.append(dict(tag="iter-K3", consts=dict(base, MaxKey=3, Vals={1}, WithIter=True), invariants=inv, properties=prop,
-                   workers=4, trace_consts=TRACE_CONSTS, replays=_replays([0, 2] if tier == "quick" else [0, 1, 2, 3]),
+                   workers=4, trace_consts=TRACE_CONSTS, replays=_replays([1, 0] if tier == "quick" else [0, 1, 2, 3, 4]),       # 1: keys of different lengths
                    prelude=_prelude))
     ms.append(dict(tag="iter-K4", consts=dict(base, MaxKey=4, Vals={1}, WithIter=True), invariants=inv, properties=prop,
                    workers=8, mc_only=(tier == "quick"), trace_consts=TRACE_CONSTS, replays=_replays([0, 3]), prelude=_prelude,
@@ -163,7 +163,7 @@ def randoms(tier, rng):
     plan = [(2, 6000, 40), (1, 8000, 2000)] if tier == "quick" else [(1, 1500, 30), (1, 2000, 120)] if tier == "cross" else [(6, 8000, 40), (3, 20000, 2000), (2, 30000, 10000)]
     for n, (nseg, steps, nkeys) in enumerate(plan):
         out.append(dict(tag="k%d" % nkeys, segs=[_rand(rng, steps, nkeys) for _ in range(nseg)], trace_consts=TRACE_CONSTS,
-                        replays=_replays([rng.randint(0, 4), (n + 1) % 5] if tier == "thorough" else [(n * 2 + rng.randint(0, 1)) % 5])))
+                        replays=_replays([rng.randint(0, 4), (n + 1) % 5] if tier == "thorough" else [1 if n == 0 else rng.choice([0, 2, 3, 4])])))
     out.append(dict(tag="rmloop", segs=_rmloops(rng, 30 if tier == "quick" else 8 if tier == "cross" else 200), trace_consts=TRACE_CONSTS,
                     replays=_replays([rng.randint(0, 4), rng.randint(0, 4)] if tier != "cross" else [rng.randint(0, 4)])))
     # walk bursts: hundreds of traversal starts on small trees (epoch wrap-around, C03)
